@@ -134,7 +134,7 @@ def sec_rand(ck, env):
         rest[:2, :2] = False
         bad2 = bool(np.any(np.abs(x - i["model_pair_friction"])[rest] > tol))
         return bad or bad2, {"range": [a, b], "pair_friction[:3]": x[:3].tolist(), "nominal[:3]": i["model_pair_friction"][:3].tolist()}
-    prove(ck, "rand.pair_friction.range", A, conj(g), nonlinear=True, replay=rp(p_fr))
+    prove(ck, "rand.pair_friction.range", A, conj(g), nonlinear=True, replay=rp(p_fr), margin_goal=slack_goal(g))
 
     # ---- friction loss / armature of the actuated dofs (index 6 and up): nominal * scale, scale in [lo, hi]; the free-joint dofs nominal
     for leaf, nom, rk in (("dof_frictionloss", "nfl", "flr"), ("dof_armature", "na", "ar")):
@@ -149,7 +149,7 @@ def sec_rand(ck, env):
             v, nm = o_[leaf], i[nom]
             bad = bool(np.any(v[6:] < nm * a - tol * (1 + np.abs(nm * a))) or np.any(v[6:] > nm * b + tol * (1 + np.abs(nm * b))) or np.any(np.abs(v[:6] - i["model_" + leaf][:6]) > tol))
             return bad, {"scale_range": [a, b], leaf + "[4:10]": v[4:10].tolist(), "nominal_actuated[:4]": nm[:4].tolist(), "model_" + leaf + "[4:10]": i["model_" + leaf][4:10].tolist()}
-        prove(ck, f"rand.{leaf}.range", A, conj(g), nonlinear=True, replay=rp(p_sc))
+        prove(ck, f"rand.{leaf}.range", A, conj(g), nonlinear=True, replay=rp(p_sc), margin_goal=slack_goal(g))
         # negative control: claiming that index 6 is NOT randomised (an off-by-one `.at[7:]`) must be refuted
         control(ck, f"control.rand.{leaf}.index6_untouched", A, eq_elem(x[6], x0[6]), nonlinear=True)
 
@@ -172,7 +172,7 @@ def sec_rand(ck, env):
         hi_[tid] += d
         bad = bool(np.any(v < lo_ - tol * (1 + np.abs(lo_))) or np.any(v > hi_ + tol * (1 + np.abs(hi_))))
         return bad, {"scale_range": [a, b], "torso_offset_range": [c, d], "body_mass[:4]": v[:4].tolist(), "nominal[:4]": nm[:4].tolist(), "torso": [float(v[tid]), float(nm[tid])]}
-    prove(ck, "rand.body_mass.range", A, conj(g), nonlinear=True, replay=rp(p_bm))
+    prove(ck, "rand.body_mass.range", A, conj(g), nonlinear=True, replay=rp(p_bm), margin_goal=slack_goal(g))
     control(ck, "control.rand.body_mass.torso_without_offset", A, within(bm[tid], S["nbm"][tid] * lo, S["nbm"][tid] * hi), nonlinear=True)
 
     # ---- every other model parameter is the nominal one
@@ -256,7 +256,7 @@ def sec_initial(ck, task, env, stub, varied):
         bad = bad or bool(np.any(p[:2, :2] < fr[0] - 1e-4) or np.any(p[:2, :2] > fr[1] + 1e-4))
         return bad, {"dof_frictionloss[4:10]": x[4:10].tolist(), "nominal_friction_loss[:4]": nmv[:4].tolist(), "dof_armature[4:10]": y[4:10].tolist(),
                      "nominal_armature[:4]": nma[:4].tolist(), "body_mass[:4]": m[:4].tolist(), "pair_friction[:2]": p[:2].tolist()}
-    prove(ck, f"initial.{task}.randomised_model_in_ranges", A + nonneg, conj(g), nonlinear=True, replay=rp_model)
+    prove(ck, f"initial.{task}.randomised_model_in_ranges", A + nonneg, conj(g), nonlinear=True, replay=rp_model, margin_goal=slack_goal(g, nonneg))
     model_out = [n for n in tr.out_names if n.startswith("model_")]
     others = [n for n in model_out if n[len("model_"):] not in varied]
     okp = all(pt.get(n) == "env_base_" + n for n in others)
@@ -339,12 +339,56 @@ def sec_initial(ck, task, env, stub, varied):
                 diffs[f] = {"returned_by_initial": a.reshape(-1)[:6].tolist(), "forward_of_the_returned_state": b.reshape(-1)[:6].tolist(), "max_abs_difference": float(np.abs(a - b).max())}
         return bool(diffs), {"task": task, "qpos[:3]": f64(st.sim_state.qpos)[:3].tolist(), "derived_leaves_inconsistent_with_qpos": diffs,
                              "how": "real initial() (real mjx.forward) on a concrete key, compared with one more real mjx.forward of the returned state"}
-    prove(ck, f"initial.{task}.kinematics_consistent", A, disj(alts), replay=rp_kin, timeout=120)
+    if exact:
+        prove(ck, f"initial.{task}.kinematics_consistent", A, disj(alts), replay=rp_kin, timeout=120)
+    else:
+        # no forward() application is syntactically the one the returned state comes from: look for a counterexample on a few leaves first
+        # (a weaker goal: any counterexample to it is one to the full statement), the full statement only if that part holds
+        small = []
+        for c in cands:
+            gq = [eq_arr(objarr(raw[nq:]), objarr(c[nq:])),
+                  disj([eq_arr(objarr(raw[:nq]), objarr(c[:nq])), eq_arr(D["qpos"], stub.sym_field(it, "FWD", "qpos", c))])]
+            gq += [eq_arr(D[f], stub.sym_field(it, "FWD", f, c)) for f in ("xpos", "site_xpos") if D[f].size]
+            small.append(conj(gq))
+        pre = solve.decide([neg(disj(small))], timeout_s=60, nonlinear=False)
+        ck.log(f"initial.{task}: no syntactic forward() image; weaker goal on qpos/xpos/site_xpos: {pre.status}")
+        if pre.status == "sat":
+            ck.prove(f"initial.{task}.kinematics_consistent", [], disj(small), replay=rp_kin, timeout=120, axioms=False)
+        else:
+            prove(ck, f"initial.{task}.kinematics_consistent", A, disj(alts), replay=rp_kin, timeout=240)
     # a snap-to-ground that is not followed by forward(): the kinematics of the state BEFORE the z correction must be refuted as consistent
     if len(cands) >= 3:
         stale = conj([eq_arr(D[f], stub.sym_field(it, "FWD", f, cands[0])) for f in ("xpos", "site_xpos") if D[f].size])
         control(ck, f"control.initial.{task}.kinematics_of_the_state_before_snap_to_ground", A, stale)
     return tr, S, out, it
+
+
+def slack_goal(goals, extra=()):
+    """the same range / equality goals with 1/16 of slack on bounded symbols: what the solver then finds survives float32 rounding at replay time"""
+    eps = z3.Q(1, 16)
+    out, ts = [], []
+
+    def widen(t):
+        if isconc(t):
+            return t
+        if z3.is_and(t):
+            return z3.And([widen(c) for c in t.children()])
+        if z3.is_le(t):
+            return t.arg(0) <= t.arg(1) + eps
+        if z3.is_ge(t):
+            return t.arg(0) >= t.arg(1) - eps
+        if z3.is_eq(t) and z3.is_arith(t.arg(0)):
+            d = t.arg(0) - t.arg(1)
+            return z3.And(d <= eps, -d <= eps)
+        return t
+    for g_ in goals:
+        out.append(widen(g_))
+        if not isconc(g_):
+            ts.append(g_)
+    from props.c17_mujoco import free_consts
+    vs = free_consts(ts)
+    bounded = [z3.And(v >= -4, v <= 4) for v in vs]
+    return implies(conj(bounded + list(extra)), conj(out))
 
 
 def objarr(xs):
@@ -422,7 +466,7 @@ def sec_gait(ck):
             vals = [concrete.model_leaf(res, Sf[n], av, None) for n, av in zip(trf.in_names, trf.in_avals)]
             return pred(f64(vals[0]), float(vals[1]), f64(concrete.run_real(trf, vals)[0]))
         return go
-    prove(ck, "foot.range", pref, conj([z3.And(hf[i] >= 0, hf[i] <= h) for i in range(2)]), nonlinear=True, timeout=120,
+    prove(ck, "foot.range", pref, conj([z3.And(hf[i] >= 0, hf[i] <= h) for i in range(2)]), nonlinear=True, timeout=60,
              replay=rpf(lambda pp, hh, r: (bool(np.any(r < -1e-5) or np.any(r > hh + 1e-5)), {"phase": pp.tolist(), "swing_height": hh, "desired_height": r.tolist()})))
 
     def at(val):
@@ -465,7 +509,8 @@ def sec_transition(ck, task, env, stub, st_example):
         pin, fin, din = f64(ins["s_gait_phase"]), float(ins["s_gait_frequency"]), float(ins["env_dt"])
         exp = pin + 2 * math.pi * fin * din
         exp = (exp + math.pi) % (2 * math.pi) - math.pi
-        bad = bool(np.any(np.minimum(np.abs(got - exp), 2 * math.pi - np.abs(got - exp)) > 1e-3)) or abs(float(outs["gait_frequency"]) - fin) > 1e-6
+        bad = bool(np.any(np.minimum(np.abs(got - exp), np.abs(2 * math.pi - np.abs(got - exp))) > 1e-3)) or abs(float(outs["gait_frequency"]) - fin) > 1e-6
+        bad = bad or bool(np.any(np.abs(got) > math.pi + 1e-4)) or abs(abs(got[1] - got[0]) - math.pi) > 1e-3 and abs(abs(pin[1] - pin[0]) - math.pi) < 1e-6
         return bad, {"gait_phase": pin.tolist(), "gait_frequency": fin, "dt": din, "next_gait_phase(real code)": got.tolist(), "expected": exp.tolist(),
                      "next_gait_frequency": float(outs["gait_frequency"])}
     prove(ck, f"phase.fmod_quotient_in_range@transition.{task}", pre, conj(list(it.o.rem_side)), nonlinear=True, replay=rp)
@@ -482,6 +527,7 @@ def sec_transition(ck, task, env, stub, st_example):
 def prove(ck, oid, assumptions, goal, **kw):
     """default solver first (it also finds counterexamples in the presence of Key-sorted terms), Ackermann + nlsat when it does not decide"""
     kw.pop("nonlinear", None)
+    kw.setdefault("timeout", 40)     # also bounds the second-solver re-check of the thorough tier
     if (ck.only is not None and oid != ck.only) or (isconc(goal) and goal):
         return ck.prove(oid, assumptions, goal, **kw)
     fs = [a for a in assumptions if not (isconc(a) and a)] + [neg(goal)]
